@@ -6,3 +6,8 @@ export CARGO_NET_OFFLINE=true
 unset RUSTFLAGS
 export CARGO_TARGET_DIR="${VERIF_TARGET_DIR:-$(pwd)/target}"
 cargo build --release --offline --workspace
+# C07 lives in its own workspace (enables the wasm-executor feature, which must
+# not be unified into the other executor checks).
+if [ -d vh-exec-wasm ]; then
+  (cd vh-exec-wasm && cargo build --release --offline)
+fi
